@@ -23,7 +23,7 @@ func init() {
 			"produced inside an Eval method is returned before the paired value is used; R1.5 no unchecked + - * or unary - on Long/int64 outside the checked helpers, each helper's ok is " +
 			"tested and the failing edge returns an overflow error; R1.6 the right/branch operand of && || if is evaluated only under the left operand's boolean with the prescribed polarity; " +
 			"R1.7 remainders of datetime milliseconds are sign-corrected (floor semantics); R1.8 entity lookups are used only under their ok; R1.9 ordering operators map to the comparison " +
-			"with the right direction and negation. Not decided: the numeric value any operator computes, `like` matching, extension parsing.",
+			"with the right direction and negation, and the value kinds implementing the comparable interface are exactly long, datetime, duration. Not decided: the numeric value any operator computes, `like` matching, extension parsing.",
 		Run: runC01,
 	})
 }
